@@ -29,9 +29,10 @@ def _flat(x):
 def _rosen(x):
     return float(sum(100.0 * (x[i + 1] - x[i] ** 2) ** 2 + (1 - x[i]) ** 2 for i in range(len(x) - 1))) if len(x) > 1 else float((1 - x[0]) ** 2)
 def _vec(x): return np.array([(v - 0.3 * (i + 1)) ** 2 for i, v in enumerate(x)] + [0.5])
+def _vec1(x): return np.array([float(sum((v - 0.3 * (i + 1)) ** 2 for i, v in enumerate(x))) - 0.75])   # one component, may be negative
 
 COSTS = {'sphere': _sphere, 'absum': _absum, 'illq': _illq, 'steps': _steps,
-         'infwall': _infwall, 'flat': _flat, 'rosen': _rosen, 'vec': _vec}
+         'infwall': _infwall, 'flat': _flat, 'rosen': _rosen, 'vec': _vec, 'vec1': _vec1}
 
 
 class Recorder(object):
@@ -138,7 +139,13 @@ reducer_sum.tag = 'red:sum'
 def reducer_max(y):
     return float(np.max(y))
 reducer_max.tag = 'red:max'
-REDUCERS = {'sum': reducer_sum, 'max': reducer_max}
+def reducer_sumsq(y):
+    return float(np.sum(np.square(y)))
+reducer_sumsq.tag = 'red:sumsq'
+def reducer_rms(y):
+    return float(np.sqrt(np.mean(np.square(y))))
+reducer_rms.tag = 'red:rms'
+REDUCERS = {'sum': reducer_sum, 'max': reducer_max, 'sumsq': reducer_sumsq, 'rms': reducer_rms}
 
 
 # ------------------------------------------------------------------ boxes
@@ -356,6 +363,24 @@ class Lab(object):
                 msg = s.Step(callback=self.callback)
                 self.msgs.append(msg)
                 return msg
+            if name in ('StepKw', 'SolveKw'):
+                # settings handed over as keywords of Step / Solve (the documented alternative to the Set* methods)
+                kw = {}
+                for k, v in sorted(op[1].items()):
+                    if k in ('EvaluationMonitor', 'StepMonitor'):
+                        kw[k] = make_monitor(v, self.tmpdir, 'k%d' % len(self.msgs))
+                    elif k == 'penalty':
+                        kw[k] = self.pen(v)
+                    elif k == 'constraints':
+                        kw[k] = self.con(v)
+                    else:
+                        kw[k] = v
+                if name == 'StepKw':
+                    msg = s.Step(callback=self.callback, **kw)
+                    self.msgs.append(msg)
+                    return msg
+                s.Solve(callback=self.callback, **kw)
+                return 'solved'
             if name == 'Solve':
                 kw = {}
                 s.Solve(callback=self.callback, **kw)
@@ -487,6 +512,11 @@ class Settings(object):
             self.pen = op[1]
         elif name == 'SetReducer':
             self.red = op[1]
+        elif name in ('StepKw', 'SolveKw'):
+            if 'penalty' in op[1]:
+                self.pen = op[1]['penalty']
+            if 'constraints' in op[1]:
+                self.con = op[1]['constraints']
 
     # the box as numbers
     def limits(self):
